@@ -27,7 +27,7 @@ from mc.refs.xrefhist import EOLS, WS, NotExpressible, canon_impl, canon_model, 
 
 ID = "C02"
 LEVEL = "model_checking"
-DEADLINE = {"quick": 900, "thorough": 3 * 3600}
+DEADLINE = {"quick": 1800, "thorough": 4 * 3600}
 
 BUFSIZES = (1, 2, 3, 5, 7, 16, 4096)
 MAJOR = (("T", False), ("S", False), ("S", True), ("H", False), ("H", True))
@@ -59,7 +59,7 @@ META = {
         "(table, xref stream, xref stream + object stream, hybrid, hybrid + object stream) x caching {on, off} x BUFSIZ "
         "{1,2,3,5,7,16,4096}; for fixed logical histories the full product of all expressible physical forms "
         "(major form x table EOL {SP LF, CR LF, SP CR} x W {[1 2 1],[1 3 2],[0 2 1]}) per revision; 3-revision histories over a "
-        "subset family with major forms deviating from (table, table, table) in <= L3_major_dev revisions (thorough: all), "
+        "subset family with major forms deviating from (table, table, table) in <= L3_major_dev revisions (thorough: all; 4 configurations, 2 for vectors with 3 deviations), "
         "thorough also 4-revision histories with <= 2 deviations. Every prefix of an enumerated history is itself a member of the "
         "family of shorter histories. damage part: 2 classic-table seeds x every startxref operand 0..len+8, 8 malformed operands, "
         "misspelt keywords, subsection headers with 1/3/non-numeric fields, every single-byte deletion and 3 single-byte insertions "
@@ -344,7 +344,7 @@ def check_document(st, defs_list, metas, phys, configs, diff: Dict[Any, Any], sa
             first_obs = obs
             ref_ok = not res
         for sig, e, o, what in res:
-            st.violation(config_prefix(ref_ok, caching, bufsiz) + sig, case, e, o, what)
+            st.violation(with_prefix(config_prefix(ref_ok, caching, bufsiz), sig), case, e, o, what)
         # form-vs-form and config-vs-config agreement: every opening is compared with the same model value, so two
         # openings that both pass necessarily agree; the logical answers are hashed into the outcome below.
     st.traces += 1
@@ -651,6 +651,10 @@ def config_prefix(ref_ok: bool, caching: bool, bufsiz: int) -> str:
     return "C02/caching-dependent:"
 
 
+def with_prefix(pre: str, sig: str) -> str:
+    return pre + sig[len("C02/") :] if pre else sig
+
+
 CONFIGS_SMALL = [(True, 4096), (False, 4096), (True, 3), (False, 1)]
 
 
@@ -734,7 +738,9 @@ def run_shard(shard, tier, st):
         cfgs = CONFIGS_SMALL if fam == "L3" else CONFIGS_SMALL[:2]
         for metas in metasets:
             for vec in major_vectors(nrev, maxdev):
-                check_document(st, defs_list, list(metas), [major_phys(MAJOR[v]) for v in vec], cfgs, diff)
+                # vectors with more than two non-table revisions (thorough only) get the two extreme configurations
+                c = cfgs if sum(1 for v in vec if v) <= 2 else [CONFIGS_SMALL[0], CONFIGS_SMALL[3]]
+                check_document(st, defs_list, list(metas), [major_phys(MAJOR[v]) for v in vec], c, diff)
     elif fam == "DMG":
         run_damage(st, shard[1], shard[2], tier, shard[3], shard[4])
     else:
@@ -752,5 +758,5 @@ def replay(case):
         if res and (case["caching"], case["bufsiz"]) != REF_CONFIG:
             ref_ok = not judge_history({**case, "caching": REF_CONFIG[0], "bufsiz": REF_CONFIG[1]})
             pre = config_prefix(ref_ok, case["caching"], case["bufsiz"])
-            res = [(pre + s, e, o, w) for s, e, o, w in res]
+            res = [(with_prefix(pre, s), e, o, w) for s, e, o, w in res]
     return [{"signature": s, "expected": repr(e)[:1500], "observed": repr(o)[:1500]} for s, e, o, _ in res]
